@@ -558,6 +558,17 @@ class Folder:
                     return UNKNOWN
                 kwargs.update(d)
         f = e.func
+        # str.maketrans(...) on constants: a translation table (a dict)
+        if isinstance(f, ast.Attribute) and f.attr == "maketrans" and \
+                isinstance(f.value, ast.Name) and f.value.id in (
+                    "str", "bytes") and f.value.id not in env and \
+                not kwargs and args and all(
+                    a is not UNKNOWN and _plain(a) for a in args):
+            try:
+                return getattr({"str": str, "bytes": bytes}[f.value.id],
+                               "maketrans")(*args)
+            except (TypeError, ValueError):
+                return UNKNOWN
         # isinstance(x, T)
         if isinstance(f, ast.Name) and f.id == "isinstance" and len(
                 e.args) == 2:
